@@ -379,6 +379,8 @@ class Gen:
             r = rng.random()
             if not clash and r >= 0.8 and (side, p) in fresh:
                 r = 0.5                 # no delete of an object created in this window (hazard HQ, finding K19): edit it
+            if not clash and flavour[side] == "p" and not (0.4 <= r < 0.8):
+                r = 0.5                 # path-id side: contested paths are only edited (hazard HP, finding K20)
             if dirside.get(p) == side:
                 op = {"side": side, "op": "mkdir" if r < 0.7 else "rmdir", "path": p}
             elif r < 0.4:
